@@ -52,6 +52,8 @@ type C13Plan struct {
 	PivOutput string `json:"piv_output,omitempty"`
 	PivExit   int    `json:"piv_exit,omitempty"`
 	BigCert   bool   `json:"big_cert,omitempty"` // the served slot certificate is a large RSA-4096 one
+	StubSlots []string `json:"stub_slots,omitempty"` // slots the stub served agent reports (nil: 9a, 9c)
+	PEMNoise  bool   `json:"pem_noise,omitempty"` // the PIV tool prints text before the PEM block and blank lines after it
 }
 
 var c13Ops = []string{"list", "sign", "add", "remove", "removeall", "lock", "unlock", "signers", "addhardcert", "addhardcert_legacy",
@@ -110,6 +112,15 @@ func genC13(r *sim.Rng, tier string) any {
 		p.PivOutput, p.PivExit = genPivOutput(r)
 	}
 	p.BigCert = r.Bool(0.3)
+	p.PEMNoise = r.Bool(0.3)
+	switch r.Intn(5) {
+	case 0:
+		p.StubSlots = []string{}
+	case 1:
+		p.StubSlots = []string{"9a"}
+	case 2:
+		p.StubSlots = []string{"f9", "9a", "82", "9e", "9c", "95"}
+	}
 	n := r.Range(2, 14)
 	for i := 0; i < n; i++ {
 		op := WOp{Op: c13Ops[r.Intn(len(c13Ops))]}
@@ -276,6 +287,9 @@ func sessionC13(t *testing.T, raw json.RawMessage) *sim.Outcome {
 	if p.BigCert {
 		st.cert, _ = x509.ParseCertificate(bigCertDER())
 	}
+	if p.StubSlots != nil {
+		st.slots = p.StubSlots
+	}
 	var served yubiagent.YubiAgent = st
 	var pivLog string
 	if p.Slots == "real" {
@@ -290,7 +304,11 @@ func sessionC13(t *testing.T, raw json.RawMessage) *sim.Outcome {
 		outFile := filepath.Join(dir, "status.out")
 		certFile := filepath.Join(dir, "cert.pem")
 		os.WriteFile(outFile, []byte(p.PivOutput), 0o644)
-		os.WriteFile(certFile, pem.EncodeToMemory(&pem.Block{Type: "CERTIFICATE", Bytes: testCertDER()}), 0o644)
+		pemBytes := pem.EncodeToMemory(&pem.Block{Type: "CERTIFICATE", Bytes: testCertDER()})
+		if p.PEMNoise {
+			pemBytes = append(append([]byte("Certificate for the slot:\n\n"), pemBytes...), []byte("\n\n  \n")...)
+		}
+		os.WriteFile(certFile, pemBytes, 0o644)
 		script := fmt.Sprintf("#!/bin/sh\necho \"$@\" >> %s\ncase \"$2\" in\n status) cat %s; exit %d;;\n read-certificate|attest) if [ \"$4\" = \"9a\" ] || [ \"$4\" = \"9c\" ]; then cat %s; exit 0; else echo 'no such slot' >&2; exit 1; fi;;\nesac\nexit 2\n",
 			pivLog, outFile, p.PivExit, certFile)
 		if err := os.WriteFile(tool, []byte(script), 0o755); err != nil {
